@@ -1864,7 +1864,9 @@ func (s *SelectStatement) String() string {
 		_, _ = fmt.Fprintf(&buf, " SOFFSET %d", s.SOffset)
 	}
 	if s.Location != nil {
-		_, _ = fmt.Fprintf(&buf, ` TZ('%s')`, s.Location)
+		_, _ = buf.WriteString(" TZ(")
+		_, _ = buf.WriteString(QuoteString(s.Location.String()))
+		_, _ = buf.WriteString(")")
 	}
 	return buf.String()
 }
